@@ -141,6 +141,21 @@ class Prover:
         self.via_stage(with_via, inputs_of)
         pending = [ob for ob in pending if ob.status != 'unsat']
         # stage 2: direct, short budget
+        # stage 1b: cone-of-influence pass (hypotheses unrelated to the goal dropped: a weakening, only 'unsat' is kept)
+        if len(pending) > 40:
+            tasks = []
+            for ob in pending:
+                try:
+                    hy, gl = smt.expand(ob, relevant=True)
+                    tasks.append(Task(ob, 'direct-relevant', hy, gl, FAST))
+                except Exception:
+                    pass
+            run_tasks(tasks)
+            for t in tasks:
+                if t.status == 'unsat':
+                    t.ob.status = 'unsat'; t.ob.backend = t.backend; t.ob.smt2 = t.smt2
+                    t.ob.steps.append(self.rec(t.ob, t))
+            pending = [ob for ob in pending if ob.status != 'unsat']
         for ob in pending:
             hyps, goal = smt.expand(ob)
             ob._hyps, ob._goal = hyps, goal
@@ -163,6 +178,21 @@ class Prover:
                     t.ob.status = 'sat'; t.ob.backend = t.backend + '+pinning'; t.ob.model = t.model
                     t.ob.model_text = getattr(t, 'model_text', ''); t.ob.smt2 = t.smt2
                     t.ob.steps.append(self.rec(t.ob, t))
+        # stage 3b: non-linear integer products abstracted to an uninterpreted function (a weakening; only 'unsat' is kept)
+        unk = [ob for ob in pending if ob.status == 'unknown']
+        if unk:
+            tasks = []
+            for ob in unk:
+                try:
+                    ab = smt.abstract_nl(ob._hyps + [ob._goal])
+                    tasks.append(Task(ob, 'direct-nl-abstracted', ab[:-1], ab[-1], [('z3-5.1.0', 30), ('cvc5-1.0.3', 30)]))
+                except Exception:
+                    pass
+            run_tasks(tasks)
+            for t in tasks:
+                t.ob.steps.append(self.rec(t.ob, t))
+                if t.status == 'unsat':
+                    t.ob.status = 'unsat'; t.ob.backend = t.backend + '+nl-abstraction'; t.ob.smt2 = t.smt2
         self.direct([ob for ob in pending if ob.status == 'unknown'], (QUICK if self.tier == 'quick' else THOROUGH[:3]), 'direct', inputs_of)
         # stage 4: long attempt for what is still unknown
         unk = [ob for ob in pending if ob.status == 'unknown']
